@@ -99,3 +99,100 @@ func ErrorCatalogue() *Request {
 	r.Tags = []string{"runtime", "errors"}
 	return r
 }
+
+// ---- C17: per-route configuration isolation and client history -----------------------------------------
+
+// RouteIsolationCatalogue: one server-only package whose services are the product of
+//
+//	service-header lists : none | required | optional | required+optional | optional+required |
+//	                       optional+optional | required+required
+//	                       (an optional service header is configuration the gate filters out: a list with
+//	                       spare room next to the required ones)
+//	method sets (2-4 routes): routes with one / two required headers of their own, with optional ones only,
+//	                       with none; siblings that declare the SAME name with another type or another
+//	                       requiredness; a route overriding a service header
+//
+// Method names are unique in the package (the server plugin emits get<Method>Headers per package).
+// Every route has its own verb/path. What a route demands follows from its service's and its own
+// declaration alone; C17 calls every route with its own headers, with each sibling's, with none.
+func RouteIsolationCatalogue() *Request {
+	id := "rtiso"
+	pkg := "rtiso.v1"
+	f := &File{Messages: []*Message{
+		M("Req", F("note", 1, "string")),
+		M("Resp", F("ok", 1, "bool")),
+	}}
+	req := func(n, ty, format string) *Header { return &Header{Name: n, Type: ty, Format: format, Required: true} }
+	opt := func(n, ty, format string) *Header { return &Header{Name: n, Type: ty, Format: format, Required: false} }
+	svcHeaders := [][]*Header{
+		nil,
+		{req("X-S0", "string", "")},
+		{opt("X-S0", "integer", "")},
+		{req("X-S0", "string", "uuid"), opt("X-S1", "integer", "")},
+		{opt("X-S0", "boolean", ""), req("X-S1", "integer", "")},
+		{opt("X-S0", "integer", ""), opt("X-S1", "string", "")},
+		{req("X-S0", "string", ""), req("X-S1", "integer", "")},
+	}
+	methodSets := [][][]*Header{
+		// four routes; A and D declare X-A with different types
+		{{req("X-A", "integer", "")}, {req("X-B", "string", "date")}, nil, {req("X-A", "boolean", ""), req("X-D", "string", "")}},
+		// three routes; optional declarations next to required ones; B declares optionally what A requires
+		{{req("X-A", "string", "uuid"), opt("X-N", "integer", "")}, {opt("X-A", "boolean", "")}, {req("X-C", "number", "")}},
+		// two routes with two required headers each
+		{{req("X-A", "integer", ""), req("X-B", "boolean", "")}, {req("X-C", "string", "email"), req("X-D", "integer", "")}},
+		// three routes; the first overrides the service's X-S0 (where there is one) with another type
+		{{req("X-S0", "integer", "")}, {req("X-B", "string", "")}, nil},
+	}
+	verbs := []string{"POST", "GET", "PUT", "DELETE"}
+	for si, sh := range svcHeaders {
+		for mi, set := range methodSets {
+			svc := Svc(fmt.Sprintf("S%dM%d", si, mi), fmt.Sprintf("/s%dm%d", si, mi))
+			for j, mh := range set {
+				verb := verbs[(si+mi+j)%len(verbs)]
+				path := fmt.Sprintf("/r%d", j)
+				if verb == "GET" || verb == "DELETE" {
+					path += "/{note}"
+				}
+				svc.Methods = append(svc.Methods, RPC(fmt.Sprintf("S%dM%dR%d", si, mi, j), pkg+".Req", pkg+".Resp", verb, path).WithHeaders(mh...))
+			}
+			svc.WithHeaders(sh...)
+			f.Services = append(f.Services, svc)
+		}
+	}
+	r := OneFile(id, pkg, f)
+	r.Tags = []string{"runtime", "headers", "server-only"}
+	return r
+}
+
+// ClientHistoryCatalogue: client + server package for the call-sequence family of C17. Body routes carry
+// a Timestamp (a value outside 0001..9999 cannot be marshalled to JSON: the call fails before anything
+// is sent), GET/DELETE routes a path variable or a query parameter; the services declare optional
+// headers only (so that typed per-call helper options exist and no request is refused for a header).
+func ClientHistoryCatalogue() *Request {
+	id := "rtseq"
+	pkg := "rtseq.v1"
+	f := &File{Messages: []*Message{
+		M("CreateReq", F("text", 1, "string"), F("at", 2, "", Msg(Timestamp)), F("labels", 3, "string", Rep())),
+		M("ListReq", F("tag", 1, "string", Query("tag", false))),
+		M("GetReq", F("id", 1, "string")),
+		M("UpdReq", F("id", 1, "string"), F("text", 2, "string"), F("at", 3, "", Msg(Timestamp))),
+		M("Note", F("id", 1, "string"), F("text", 2, "string")),
+		M("NoteList", F("ids", 1, "string", Rep())),
+	}}
+	notes := Svc("Notes", "/api",
+		RPC("Create", pkg+".CreateReq", pkg+".Note", "POST", "/notes").WithHeaders(&Header{Name: "X-Idem", Type: "string", Required: false}),
+		RPC("List", pkg+".ListReq", pkg+".NoteList", "GET", "/notes"),
+		RPC("Get", pkg+".GetReq", pkg+".Note", "GET", "/notes/{id}"),
+		RPC("Update", pkg+".UpdReq", pkg+".Note", "PUT", "/notes/{id}"),
+		RPC("Patch", pkg+".UpdReq", pkg+".Note", "PATCH", "/notes/{id}"),
+		RPC("Delete", pkg+".GetReq", pkg+".Note", "DELETE", "/notes/{id}"),
+	).WithHeaders(&Header{Name: "X-Trace", Type: "string", Required: false})
+	audit := Svc("Audit", "/audit",
+		RPC("Log", pkg+".CreateReq", pkg+".Note", "POST", "/log"),
+		RPC("Tail", pkg+".ListReq", pkg+".NoteList", "GET", "/tail"),
+	)
+	f.Services = []*Service{notes, audit}
+	r := OneFile(id, pkg, f)
+	r.Tags = []string{"runtime", "headers"}
+	return r
+}
